@@ -20,8 +20,10 @@ use std::sync::atomic::{AtomicBool, AtomicU64, Ordering};
 use std::sync::{Arc, Mutex};
 use std::time::{Duration, Instant};
 
-const TOKENS: [&str; 20] = [
-    "a", "1", ".", "(", ")", "!", "&&", "||", "==", "!=", ">=", "<", "\"", "'", "?", " ", "é", "€", "-", "+",
+// the alphabet of the task plus the keyword `true` (reaches the word-boundary check of the literal scanner) and a backslash
+// (reaches the escape branch of the string scanner)
+const TOKENS: [&str; 22] = [
+    "a", "1", ".", "(", ")", "!", "&&", "||", "==", "!=", ">=", "<", "\"", "'", "?", " ", "é", "€", "-", "+", "true", "\\",
 ];
 const HANG: Duration = Duration::from_secs(10);
 
@@ -144,11 +146,11 @@ fn call_grl_rules(t: &str) {
 }
 
 fn c05_bc_expression_parser_search() -> (bool, String) {
-    let (b, d) = search(4, plain, call_expression);
+    let (b, d) = search(5, plain, call_expression);
     (b, format!("ExpressionParser::parse {}", d))
 }
 fn c05_bc_query_parser_search() -> (bool, String) {
-    let (b, d) = search(4, plain, call_query);
+    let (b, d) = search(5, plain, call_query);
     (b, format!("QueryParser::parse(s) / parse(\"NOT \"+s) {}", d))
 }
 fn c05_grl_query_parser_goal_search() -> (bool, String) {
@@ -216,10 +218,10 @@ fn c05_deep_nesting_child() -> (bool, String) {
             let _ = tx.send(r.is_ok());
         })
         .unwrap();
-    match rx.recv_timeout(Duration::from_secs(20)) {
+    match rx.recv_timeout(HANG) {
         Ok(true) => (false, format!("returned: {}", case)),
         Ok(false) => (true, format!("panicked: {}", case)),
-        Err(_) => (true, format!("did not return within 20 s: {}", case)),
+        Err(_) => (true, format!("did not return within {} s: {}", HANG.as_secs(), case)),
     }
 }
 
@@ -251,24 +253,31 @@ fn deep(parser: &'static str) -> (bool, String) {
         ("closed", 1000, false),
         ("closed", 4000, false),
     ];
-    let mut bad_in = Vec::new();
+    let mut bad_in: Option<String> = None;
     let mut bad_out = Vec::new();
+    let mut ran = 0;
     for (shape, n, inside) in cases {
+        if bad_in.is_some() && inside {
+            continue; // one in-scope failure is enough (a hang costs 10 s each)
+        }
+        if bad_in.is_some() || (!inside && !bad_out.is_empty()) {
+            continue;
+        }
+        ran += 1;
         let case = format!("{}:{}:{}", parser, shape, n);
         if let Err(e) = run_child(&case) {
-            let d = format!("{} on {} (8 MiB stack) — {}", e, describe(shape, n), parser);
+            let d = format!("{} on {} embedded for `{}` (child process, 8 MiB stack)", e, describe(shape, n), parser);
             if inside {
-                bad_in.push(d);
+                bad_in = Some(d);
             } else {
                 bad_out.push(d);
             }
         }
     }
     let info = if bad_out.is_empty() { String::new() } else { format!("; OUTSIDE the quantifier (information only): {}", bad_out.join("; ")) };
-    if !bad_in.is_empty() {
-        (true, format!("{}{}", bad_in.join("; "), info))
-    } else {
-        (false, format!("{}: 9 deep-nesting inputs in child processes (n = 32, 1000, 4000; shapes (^n a )^n, (^n a, !^n a){}", parser, info))
+    match bad_in {
+        Some(d) => (true, format!("{}{}", d, info)),
+        None => (false, format!("{}: {} deep-nesting inputs in child processes (n = 32, 1000, 4000; shapes (^n a )^n, (^n a, !^n a){}", parser, ran, info)),
     }
 }
 fn describe(shape: &str, n: usize) -> String {
